@@ -1305,7 +1305,17 @@ func c08Gen(r *verifh.Rng) []verifh.Section {
 				"u key=json fs=0 fa=0 T { A map * [] int t:a } I { a { k [ n:1 ] j [ ] } }",
 				"u key=json fs=0 fa=0 T { A * [] str t:a,default=[x,y] } I { }",
 				"u key=json fs=0 fa=0 T { A [] bool t:a,default=[true] } I { }",
-				"u key=json fs=0 fa=0 T { A [] str t:a,default=[true] } I { }")
+				"u key=json fs=0 fa=0 T { A [] str t:a,default=[true] } I { }",
+				// round 4: YAML / TOML front ends (fs=1: WithStringValues handed on as an option)
+				"uy key=json fs=0 fa=0 T { A int t:a,range=[1:5] B f64 t:b,optional C { X str t:x,options=foo|bar } t:c D [] int t:d,optional } I { a n:5 b n:1e2 c { x s:foo } d [ n:1 null n:3 ] }",
+				"uy key=json fs=0 fa=0 T { A int t:a,range=[1:5] } I { a n:6 }",
+				// open defect (Props.yaml_null_witness): a YAML null reaches the unmarshaller as the empty string
+				"uy key=json fs=0 fa=0 T { A int t:a,optional B str t:b } I { a null b s:x }",
+				"u key=json fs=0 fa=0 T { A int t:a,optional B str t:b } I { a null b s:x }",
+				"ut key=json fs=0 fa=0 T { A int t:a,range=[1:5] B f64 t:b,optional C { X str t:x,options=foo|bar } t:c M map int t:m } I { a n:5 b n:2.5 c { x s:foo } m { k n:1 j n:2 } }",
+				"ut key=json fs=0 fa=0 T { A int t:a,optional=b,range=(0:5) B bool t:b,optional } I { a n:5 b true }",
+				"uy key=json fs=1 fa=0 T { A int t:a,range=[1:5] B bool t:b } I { a s:5 b s:1 }",
+				"ut key=json fs=1 fa=0 T { A u8 t:a,default=7 B f32 t:b } I { b s:1.5 }")
 		}
 		ntypes := verifh.Scale(12, 30)
 		for k := 0; k < ntypes; k++ {
@@ -1336,6 +1346,16 @@ func c08Gen(r *verifh.Rng) []verifh.Section {
 					in = r.PickS("[ ]", "n:1", "null", "s:x", "{ }")
 				}
 				head := "u"
+				if cfg == "key=path fs=1 fa=0" && r.Chance(1, 3) {
+					// string values through the YAML / TOML front ends: WithStringValues is handed on as an option
+					cfg2 := "key=json fs=1 fa=0"
+					head = r.PickS("uy", "ut")
+					if head == "ut" && (strings.Contains(in, "null") || !strings.HasPrefix(in, "{")) {
+						head = "uy"
+					}
+					ops = append(ops, head+" "+cfg2+" T"+tb.String()+" I "+in)
+					continue
+				}
 				if cfg == "key=json fs=0 fa=0" && r.Chance(1, 4) {
 					// the same document through the YAML / TOML front ends (TOML cannot write null)
 					head = r.PickS("uy", "ut")
